@@ -1,7 +1,7 @@
 (* C05 — Unplayable tracks and failing playback backends are skipped and contained. *)
 From Coq Require Import ZArith List Bool.
 From Common Require Import Res.
-From Core Require Import World Model Step Reach Res_NoRaise Proofs_C05 Proofs_C03b Proofs_C05b.
+From Core Require Import World Model Step Reach Res_NoRaise Proofs_C05 Proofs_C03b Proofs_C03c Proofs_C05b Proofs_C05c.
 Import ListNotations.
 Open Scope Z_scope.
 
@@ -74,3 +74,105 @@ Example C05_skip_example :
   /\ map fst (attempts w') = [5; 3; 2; 1; 0].
 Proof. vm_compute. repeat split; reflexivity. Qed.
 Print Assumptions C05_skip_example.
+
+(* The same at the natural end of a track: the end-of-track handler walks over the run of
+   unplayable entries (asking each backend at most once) and preloads x; after the two
+   notifications of the gapless switch the player is on x, playing, and the block announced
+   exactly ended(c) / state / started(x) - none of the skipped entries was announced, became
+   current or stayed pending. *)
+Theorem C05_eot_tries_following_candidates :
+  forall shuf f us pre c x post len w,
+  World.tl w = pre ++ c :: us ++ x :: post -> NoDup (map tlid (World.tl w)) ->
+  settled_on w c -> pstate w = Playing -> sequential w -> a_atf_done w = false ->
+  len_of w (trk c) = Some len -> script w = [] ->
+  (forall u, In u us -> kind_of w (trk u) <> Playable) -> kind_of w (trk x) = Playable ->
+  let w' := run_world shuf (S (length us + f)) w [AboutToFinish; Deliver; Deliver] in
+  current w' = Some x /\ pstate w' = Playing /\ pending w' = None /\ queue w' = []
+  /\ a_uri w' = Some (trk x) /\ a_state w' = Playing /\ World.tl w' = World.tl w
+  /\ events w' = EvStarted x :: EvStateChanged Playing Playing :: EvEnded c len :: events w.
+Proof. exact eot_skips_unplayable. Qed.
+Print Assumptions C05_eot_tries_following_candidates.
+
+Example C05_eot_skip_example :
+  let w := run_world shuf_concrete 50 (init_world 50 [Playable; Refuse; NoUri; Raises; NoBackend; Playable]
+                                         [Some 900; Some 900; Some 900; Some 900; Some 900; Some 900] [] None None)
+             [Add [0; 1; 2; 3; 4; 5] None; Play None; Deliver; Deliver; Deliver; Deliver] in
+  let w' := run_world shuf_concrete 50 w [AboutToFinish; Deliver; Deliver] in
+  option_map tlid (current w) = Some 1 /\ option_map tlid (current w') = Some 6 /\ pstate w' = Playing
+  /\ map fst (attempts w') = [5; 3; 2; 1; 0] /\ sequential w /\ script w = [] /\ a_atf_done w = false.
+Proof. vm_compute. repeat split; reflexivity. Qed.
+Print Assumptions C05_eot_skip_example.
+
+(* ... and for play(tlid) of an unplayable entry, from any settled state (playing, paused or
+   stopped on c): the entries following it are tried in list order and the first playable one
+   plays. *)
+Theorem C05_play_tries_following_candidates :
+  forall shuf f u us pre c x post w,
+  World.tl w = pre ++ (u :: us) ++ x :: post -> NoDup (map tlid (World.tl w)) -> 1 <= tlid u ->
+  settled_on w c -> consume w = false -> random w = false -> repeat w = false ->
+  script w = [] -> (forall y, In y (u :: us) -> kind_of w (trk y) <> Playable) -> kind_of w (trk x) = Playable ->
+  let w' := run_world shuf (S (length (u :: us) + f)) w [Play (Some (tlid u)); Deliver; Deliver; Deliver; Deliver] in
+  current w' = Some x /\ pstate w' = Playing /\ pending w' = None /\ queue w' = []
+  /\ a_uri w' = Some (trk x) /\ a_state w' = Playing /\ World.tl w' = World.tl w.
+Proof. exact play_skips_unplayable. Qed.
+Print Assumptions C05_play_tries_following_candidates.
+
+Example C05_play_skip_example :
+  let w := run_world shuf_concrete 50 (init_world 50 [Playable; Refuse; NoUri; Raises; NoBackend; Playable]
+                                         [Some 900; Some 900; Some 900; Some 900; Some 900; Some 900] [] None None)
+             [Add [0; 1; 2; 3; 4; 5] None; Play None; Deliver; Deliver; Deliver; Deliver; Pause; Deliver; Deliver; Deliver] in
+  let w' := run_world shuf_concrete 50 w [Play (Some 2); Deliver; Deliver; Deliver; Deliver] in
+  option_map tlid (current w) = Some 1 /\ pstate w = Paused /\ queue w = []
+  /\ option_map tlid (current w') = Some 6 /\ pstate w' = Playing
+  /\ map fst (attempts w') = [5; 3; 2; 1; 0].
+Proof. vm_compute. repeat split; reflexivity. Qed.
+Print Assumptions C05_play_skip_example.
+
+(* ... and for previous(), walking backwards: `rev us` is the run of unplayable entries between
+   x and c in list order; previous() from c tries them from the nearest one down and ends on x. *)
+Theorem C05_previous_tries_preceding_candidates :
+  forall shuf f us pre c x post w,
+  World.tl w = pre ++ x :: rev us ++ c :: post -> NoDup (map tlid (World.tl w)) ->
+  settled_on w c -> pstate w = Playing -> consume w = false -> random w = false -> repeat w = false ->
+  script w = [] -> (forall u, In u us -> kind_of w (trk u) <> Playable) -> kind_of w (trk x) = Playable ->
+  let w' := run_world shuf (S (length us + f)) w [Previous; Deliver; Deliver; Deliver; Deliver] in
+  current w' = Some x /\ pstate w' = Playing /\ pending w' = None /\ queue w' = []
+  /\ a_uri w' = Some (trk x) /\ a_state w' = Playing /\ World.tl w' = World.tl w.
+Proof. exact previous_skips_unplayable. Qed.
+Print Assumptions C05_previous_tries_preceding_candidates.
+
+Example C05_previous_skip_example :
+  let w := run_world shuf_concrete 50 (init_world 50 [Playable; Refuse; NoUri; Raises; NoBackend; Playable]
+                                         [Some 900; Some 900; Some 900; Some 900; Some 900; Some 900] [] None None)
+             [Add [0; 1; 2; 3; 4; 5] None; Play (Some 6); Deliver; Deliver; Deliver; Deliver] in
+  let w' := run_world shuf_concrete 50 w [Previous; Deliver; Deliver; Deliver; Deliver] in
+  option_map tlid (current w) = Some 6 /\ pstate w = Playing /\ queue w = []
+  /\ option_map tlid (current w') = Some 1 /\ pstate w' = Playing
+  /\ map fst (attempts w') = [0; 1; 2; 3; 5].
+Proof. vm_compute. repeat split; reflexivity. Qed.
+Print Assumptions C05_previous_skip_example.
+
+(* ... and in random mode: next() walks over the unplayable entries at the head of the shuffle
+   order (each is dropped from the order, as _mark_unplayable does) and plays the first playable
+   one; the bound on the run is the loop's own budget, twice the tracklist length. *)
+Theorem C05_next_tries_following_candidates_random :
+  forall shuf f us c x rest w,
+  World.tl w <> [] -> shuffled w = us ++ x :: rest -> zlen us < zlen (World.tl w) * 2 ->
+  settled_on w c -> pstate w = Playing -> consume w = false -> random w = true ->
+  script w = [] -> (forall u, In u us -> kind_of w (trk u) <> Playable) -> kind_of w (trk x) = Playable ->
+  let w' := run_world shuf (S (length us + f)) w [Next; Deliver; Deliver; Deliver; Deliver] in
+  current w' = Some x /\ pstate w' = Playing /\ pending w' = None /\ queue w' = []
+  /\ a_uri w' = Some (trk x) /\ a_state w' = Playing /\ World.tl w' = World.tl w.
+Proof. exact next_skips_unplayable_random. Qed.
+Print Assumptions C05_next_tries_following_candidates_random.
+
+Example C05_random_skip_example :
+  let w := run_world shuf_concrete 50 (init_world 50 [Refuse; NoBackend; Raises; Playable; Playable; Playable]
+                                         [Some 900; Some 900; Some 900; Some 900; Some 900; Some 900] [] None None)
+             [Add [0; 1; 2; 3; 4; 5] None; Play (Some 5); Deliver; Deliver; Deliver; Deliver; SetMode 1 true] in
+  let w' := run_world shuf_concrete 50 w [Next; Deliver; Deliver; Deliver; Deliver] in
+  map tlid (shuffled w) = [1; 2; 3; 4; 5; 6] /\ option_map tlid (current w) = Some 5 /\ pstate w = Playing /\ queue w = []
+  /\ option_map tlid (current w') = Some 4 /\ pstate w' = Playing /\ map tlid (shuffled w') = [5; 6]
+  /\ map fst (attempts w') = [3; 2; 0; 4].
+Proof. vm_compute. repeat split; reflexivity. Qed.
+Print Assumptions C05_random_skip_example.
